@@ -1357,3 +1357,16 @@ Proof.
       apply files_collide_spec. destruct Hc as [Hc|Hc]; auto.
     + right. exists f. split; [now apply HE|now apply dup_key_spec].
 Qed.
+
+Lemma reported_eq_has_collision_lemma fs T l :
+  wf_universe (closure_list fs) ->
+  run_ops [] (map OImport fs) = (T, l) -> any_err l = has_collision fs.
+Proof.
+  intros HW Hr. pose proof (collision_iff_reported_lemma fs T l HW Hr) as C.
+  pose proof (has_collision_spec fs HW) as H.
+  destruct (any_err l), (has_collision fs); try reflexivity; exfalso.
+  - assert (Hn : ~ collides (closure_list fs)) by (intros Hc; apply H in Hc; discriminate).
+    apply C in Hn. discriminate.
+  - assert (Hc : collides (closure_list fs)) by (now apply H).
+    exact (proj1 C eq_refl Hc).
+Qed.
